@@ -64,12 +64,15 @@ static void emit(const char *fmt, ...)
 {
 	va_list ap;
 	int n;
-	if (out_cap - out_len < 512) {
-		out_cap = out_cap * 2 + 4096;
+	va_start(ap, fmt);
+	n = vsnprintf(NULL, 0, fmt, ap);
+	va_end(ap);
+	if (out_cap - out_len < (size_t) n + 2) {
+		out_cap = (out_cap + n + 2) * 2 + 4096;
 		out = realloc(out, out_cap);
 	}
 	va_start(ap, fmt);
-	n = vsnprintf(out + out_len, out_cap - out_len, fmt, ap);
+	vsnprintf(out + out_len, out_cap - out_len, fmt, ap);
 	va_end(ap);
 	out_len += n;
 }
@@ -481,6 +484,10 @@ int main(void)
 			ops = *progress;
 			if (strstr(e, "VERIF-TS-OUT-OF-RANGE"))
 				kind = "ts-out-of-range";
+			else if (strstr(e, "out of bounds for type 'const struct l1sched_lchan_desc"))
+				kind = "desc";
+			else if (strstr(e, "shift exponent"))
+				kind = "shift";
 			else if (strstr(e, "use-after-poison"))
 				kind = "out-of-table";
 			else if (strstr(e, "division by zero") || strstr(e, "FPE"))
